@@ -627,6 +627,7 @@ Section Dispatch.
     unfold process_message_decision. rewrite Hini, Hi, Hex, Hresp.
     change (has_keys P (inner P s)) with (match cprop (co (inner P s)) with Some _ => true | None => false end).
     rewrite Hcp. cbn [Bool.eqb negb andb Z.eqb EX_IKE_SA_INIT Pos.eqb].
+    rewrite Hid, Hpid. change (Z.eqb 0 0) with true. cbv iota.
     unfold process_request. change (B P) with body. cbv zeta. cbn [p_hdr peer_id my_id set_dpd_at inner].
     rewrite Hid, Hpid, Hex.
     change (req_is_retransmission 0 0 (my_id P s)) with false. change (req_id_unexpected 0 0 (my_id P s)) with false.
@@ -817,10 +818,11 @@ Section Dispatch.
     rewrite Hcp. destruct (h_init (p_hdr m)) eqn:Hini.
     - destruct Hbad as [Hbad|Hbad]; [discriminate Hbad|].
       cbn [Bool.eqb negb andb Z.eqb EX_IKE_SA_INIT Pos.eqb].
-      unfold process_request. change (B P) with body. cbv zeta. cbn [p_hdr peer_id my_id set_dpd_at inner last_resp].
-      rewrite Hpid, Hlr. unfold req_is_retransmission, req_id_unexpected.
-      destruct (Z.eqb (h_id (p_hdr m)) (0 - 1)); [split; reflexivity|].
-      replace (Z.eqb (h_id (p_hdr m)) 0) with false by lia. split; reflexivity.
+      destruct (Z.eqb (h_id (p_hdr m)) (peer_id P s));
+        (unfold process_request; change (B P) with body; cbv zeta; cbn [p_hdr peer_id my_id set_dpd_at inner last_resp];
+         rewrite Hpid, Hlr; unfold req_is_retransmission, req_id_unexpected;
+         destruct (Z.eqb (h_id (p_hdr m)) (0 - 1)); [split; reflexivity|];
+         replace (Z.eqb (h_id (p_hdr m)) 0) with false by lia; split; reflexivity).
     - cbn. split; reflexivity.
   Qed.
 
@@ -901,6 +903,7 @@ Section Dispatch.
     unfold process_message_decision. rewrite Hini, Hi, Hex, Hresp.
     change (has_keys P (inner P s)) with (match cprop (co (inner P s)) with Some _ => true | None => false end).
     rewrite Hcp. cbn [Bool.eqb negb andb Z.eqb EX_IKE_SA_INIT Pos.eqb].
+    rewrite Hid, Hpid. change (Z.eqb 0 0) with true. cbv iota.
     unfold process_request. change (B P) with body. cbv zeta. cbn [p_hdr peer_id my_id set_dpd_at inner].
     rewrite Hid, Hpid, Hex.
     change (req_is_retransmission 0 0 (my_id P s)) with false. change (req_id_unexpected 0 0 (my_id P s)) with false.
